@@ -37,7 +37,7 @@ SEARCHED = [
     "at max) and, through the softfloat addition proved correctly rounded (ulp_next_ieee / ulp_prev_ieee), that the IEEE sum / difference of "
     "the patterns IS the neighbour; that NumPy's addition is the softfloat's is validated each run (fav/softcheck.py) and the identity on the "
     "real float addition is also checked by search",
-    "list / ndarray dispatch branches of diff_ulp (element-wise maps of the scalar function) are not modelled",
+    "list / 0-d / 1-d ndarray dispatch branches of diff_ulp (element-wise maps of the scalar function; lists: sum with zero padding) are not modelled: search clause dispatch-consistent",
 ]
 TRUSTED = [
     "Lean 4 kernel; axioms propext, Classical.choice, Quot.sound only",
@@ -317,6 +317,46 @@ class Clauses:
                         rep = 0 if d0 == 0 else ((t & L["sign"]) | L["minnormal"])
                         if d0 not in (0, 1) or self.d(w, fl, t, r) != self.d(w, fl, rep, r):
                             out.append(dict(base, clause="flush-tie-consistent", got=[d0, self.d(w, fl, t, r), self.d(w, fl, rep, r)]))
+        return out
+
+    def check_dispatch(self, w, fl, xs, ys):
+        """the list / 0-d / 1-d ndarray branches of diff_ulp are element-wise maps of the scalar function (lists: the SUM of the
+        element distances, the shorter list padded with zeros): a first-order mutant in each of them survived before this clause"""
+        np = self.n.np
+        out = []
+        xs = [b for b in xs if classify(w, b) not in ("nan", "inf")]
+        ys = [b for b in ys if classify(w, b) not in ("nan", "inf")]
+        if not xs or not ys:
+            return out
+        kw = self.n.flush_kw(fl)
+        sx, sy = self.n.scalars(w, xs), self.n.scalars(w, ys)
+        base = dict(fn="diff_ulp", w=w, flush=fl, x=xs[0], y=ys[0], xs=xs, ys=ys)
+        scal = lambda a, b: self.n.call(self.n.utils.diff_ulp, a, b, **kw)  # noqa: E731
+        # 0-d arrays
+        r0 = self.n.call(self.n.utils.diff_ulp, np.array(sx[0]), np.array(sy[0]), **kw)
+        s0 = scal(sx[0], sy[0])
+        if isinstance(r0, str) or int(np.asarray(r0)) != s0:
+            out.append(dict(base, clause="dispatch-0d-array", got=repr(r0), want=s0))
+        # 1-d arrays of equal length
+        n = min(len(sx), len(sy))
+        r1 = self.n.call(self.n.utils.diff_ulp, np.array(sx[:n]), np.array(sy[:n]), **kw)
+        want1 = [scal(a, b) for a, b in zip(sx[:n], sy[:n])]
+        if isinstance(r1, str) or [int(v) for v in np.asarray(r1).reshape(-1)] != want1:
+            a1 = None if isinstance(r1, str) else np.asarray(r1)
+            if a1 is not None and a1.dtype.kind == "f" and max(want1) >= 2 ** 63 and [float(v) for v in a1.reshape(-1)] == [float(v) for v in want1]:
+                # known cause: numpy.array of Python ints, one of them >= 2^63, silently becomes a float64 array (the distances are rounded)
+                out.append(dict(base, clause="dispatch-1d-array:distance>=2^63-makes-a-float64-array", got=repr(r1), want=want1))
+            else:
+                out.append(dict(base, clause="dispatch-1d-array", got=repr(r1), want=want1))
+        # lists, both padding directions
+        zero = self.n.scalar(w, 0)
+        for a, b in ((sx, sy), (sy, sx)):
+            rl = self.n.call(self.n.utils.diff_ulp, list(a), list(b), **kw)
+            m = max(len(a), len(b))
+            pa, pb = list(a) + [zero] * (m - len(a)), list(b) + [zero] * (m - len(b))
+            wantl = sum(scal(u, v) for u, v in zip(pa, pb))
+            if rl != wantl:
+                out.append(dict(base, clause="dispatch-list", got=repr(rl), want=wantl, lens=[len(a), len(b)]))
         return out
 
     def check_chain(self, w, fl, pats):
@@ -623,6 +663,13 @@ def run(ctx):
         fl = rng.choice("U01")
         note(16, C.check_pair(16, fl, x, y))
         ctx.case(key=("s-pair", 16, fl, x, y), nontrivial=x != y)
+    for _ in range(ctx.scale(300, 3000)):
+        w = rng.choice([16, 32, 64])
+        fl = rng.choice("U01")
+        xs = [rng.randrange(1 << w) for _ in range(rng.randint(1, 4))]
+        ys = [rng.randrange(1 << w) for _ in range(rng.randint(1, 4))]
+        note(w, C.check_dispatch(w, fl, xs, ys))
+        ctx.case(key=("s-dispatch", w, fl, tuple(xs), tuple(ys)), nontrivial=True)
     for _ in range(ctx.scale(4000, 40000)):
         ch = [gen_pattern(16, rng, e16) for _ in range(rng.choice([3, 4, 8]))]
         fl = rng.choice("U01")
@@ -745,6 +792,8 @@ def replay(ctx, obj):
     w = rp["w"]
     if rp["fn"] == "ulp":
         fs = C.check_ulp(w, rp["x"])
+    elif str(rp.get("clause", "")).startswith("dispatch"):
+        fs = C.check_dispatch(w, rp["flush"], rp["xs"], rp["ys"])
     elif "complex" in rp:
         fs = C.check_complex(w, rp["flush"], *rp["complex"])
     elif "chain" in rp:
